@@ -62,7 +62,9 @@ Inductive pcmd :=
 | CM (x y : Q) | CL (x y : Q) | CH (x : Q) | CV (y : Q)
 | CQ (x1 y1 x y : Q) | CC (x1 y1 x2 y2 x y : Q)
 | CA (rx ry rot : Q) (large sweep : bool) (x y : Q)
-| CZ | Cm (dx dy : Q) | Cl (dx dy : Q).
+| CZ | Cm (dx dy : Q) | Cl (dx dy : Q)
+| CS (x2 y2 x y : Q) | Cs (dx2 dy2 dx dy : Q)      (* smooth cubic, absolute / relative *)
+| CT (x y : Q) | Ct (dx dy : Q).                   (* smooth quadratic *)
 
 Inductive shape :=
 | SRect (x y w h : Q) (r : option Q)        (* rx (= ry) *)
@@ -136,6 +138,51 @@ Definition tfs_mat (ts : list tf) : mat := fold_left (fun m t => mm m (tf_mat t)
 Definition attrs_tf (as_ : list attr) : mat :=
   fold_left (fun m a => match a with ATransform ts => mm m (tfs_mat ts) | _ => m end) as_ mid.
 
+(** smooth curve commands (SVG 1.1 8.3.6, 8.3.7): the first control point of S/s is the reflection of the SECOND control point of
+    the previous command about the current point when that command was C, c, S or s, else the current point; T/t likewise with
+    the control point of the previous Q, q, T or t.  [desugar] rewrites them to C / Q. *)
+Definition reflect (cur : qpt) (o : option qpt) : qpt :=
+  match o with Some p => (2 * fst cur - fst p, 2 * snd cur - snd p) | None => cur end.
+(** a Bezier whose control points lie on the segment from its start to its end IS that segment (as a point set, traversed
+    monotonically); the path builder stores it as a line (QuadTo / CubeTo), so the specification names it a line too *)
+Definition peq (a b : qpt) : bool := Qeq_bool (fst a) (fst b) && Qeq_bool (snd a) (snd b).
+Definition same_dir (u v : qpt) : bool :=
+  Qeq_bool (fst u * snd v - snd u * fst v) 0 && Qltb 0 (fst u * fst v + snd u * snd v).
+Definition psub (a b : qpt) : qpt := (fst a - fst b, snd a - snd b).
+Definition on_seg (s e c : qpt) : bool :=
+  peq s c || peq e c || (same_dir (psub e s) (psub c s) && same_dir (psub e s) (psub e c)).
+Definition mkq (s c e : qpt) : pcmd :=
+  if negb (peq s e) && (peq s c || same_dir (psub e s) (psub c s)) && (peq e c || same_dir (psub e s) (psub e c))
+  then CL (fst e) (snd e) else CQ (fst c) (snd c) (fst e) (snd e).
+Definition mkc (s c1 c2 e : qpt) : pcmd :=
+  if negb (peq s e) && on_seg s e c1 && on_seg s e c2 then CL (fst e) (snd e)
+  else CC (fst c1) (snd c1) (fst c2) (snd c2) (fst e) (snd e).
+Fixpoint desugar (cur start : qpt) (lc lq : option qpt) (d : list pcmd) : list pcmd :=
+  match d with
+  | [] => []
+  | c :: t =>
+    match c with
+    | CM x y => c :: desugar (x, y) (x, y) None None t
+    | Cm dx dy => let p := (fst cur + dx, snd cur + dy) in c :: desugar p p None None t
+    | CL x y => c :: desugar (x, y) start None None t
+    | Cl dx dy => c :: desugar (fst cur + dx, snd cur + dy) start None None t
+    | CH x => c :: desugar (x, snd cur) start None None t
+    | CV y => c :: desugar (fst cur, y) start None None t
+    | CQ x1 y1 x y => mkq cur (x1, y1) (x, y) :: desugar (x, y) start None (Some (x1, y1)) t
+    | CC x1 y1 x2 y2 x y => mkc cur (x1, y1) (x2, y2) (x, y) :: desugar (x, y) start (Some (x2, y2)) None t
+    | CA rx ry rot l s x y => c :: desugar (x, y) start None None t
+    | CZ => c :: desugar start start None None t
+    | CS x2 y2 x y => let p1 := reflect cur lc in
+        mkc cur p1 (x2, y2) (x, y) :: desugar (x, y) start (Some (x2, y2)) None t
+    | Cs dx2 dy2 dx dy => let p1 := reflect cur lc in
+        let p2 := (fst cur + dx2, snd cur + dy2) in let e := (fst cur + dx, snd cur + dy) in
+        mkc cur p1 p2 e :: desugar e start (Some p2) None t
+    | CT x y => let p1 := reflect cur lq in mkq cur p1 (x, y) :: desugar (x, y) start None (Some p1) t
+    | Ct dx dy => let p1 := reflect cur lq in let e := (fst cur + dx, snd cur + dy) in
+        mkq cur p1 e :: desugar e start None (Some p1) t
+    end
+  end.
+
 (** path data to absolute commands (SVG 1.1 8.3); H/V/m/l resolved against the current point *)
 Fixpoint abs_path (cur start : qpt) (d : list pcmd) : list gcmd :=
   match d with
@@ -152,8 +199,14 @@ Fixpoint abs_path (cur start : qpt) (d : list pcmd) : list gcmd :=
     | CC x1 y1 x2 y2 x y => GC (x1, y1) (x2, y2) (x, y) :: abs_path (x, y) start t
     | CA rx ry rot l s x y => GA rx ry rot l s (x, y) :: abs_path (x, y) start t
     | CZ => GZ :: abs_path start start t
+    (* smooth commands are rewritten by [desugar] first; on their own they have no previous control point *)
+    | CS x2 y2 x y => GC cur (x2, y2) (x, y) :: abs_path (x, y) start t
+    | Cs dx2 dy2 dx dy => let e := (fst cur + dx, snd cur + dy) in GC cur (fst cur + dx2, snd cur + dy2) e :: abs_path e start t
+    | CT x y => GQ cur (x, y) :: abs_path (x, y) start t
+    | Ct dx dy => let e := (fst cur + dx, snd cur + dy) in GQ cur e :: abs_path e start t
     end
   end.
+Definition path_geom (d : list pcmd) : list gcmd := abs_path (0, 0) (0, 0) (desugar (0, 0) (0, 0) None None d).
 
 Definition poly_geom (pts : list qpt) (closed : bool) : list gcmd :=
   match pts with
@@ -188,7 +241,7 @@ Definition spec_geom (s : shape) : list gcmd :=
   | SLine x1 y1 x2 y2 => [GM (x1, y1); GL (x2, y2)]
   | SPolyline pts => poly_geom pts false
   | SPolygon pts => poly_geom pts true
-  | SPath d => abs_path (0, 0) (0, 0) d
+  | SPath d => path_geom d
   end.
 
 (* ------------------------------------------------------------------------------------------------ *)
@@ -412,7 +465,7 @@ Definition go_shape (s : shape) : qpt * list gcmd :=
   | SLine x1 y1 x2 y2 => ((0, 0), [GM (x1, y1); GL (x2, y2)])
   | SPolyline pts => ((0, 0), poly_geom pts false)
   | SPolygon pts => ((0, 0), poly_geom pts true)
-  | SPath d => ((0, 0), map go_canon (abs_path (0, 0) (0, 0) d))
+  | SPath d => ((0, 0), map go_canon (path_geom d))
   end.
 
 (** svg.setStyling.  [v0] = the order of the tree before the fix: CSS rules first, then ALL attributes in
